@@ -342,6 +342,32 @@ def triage_lookup(ctx, s, key3):
     for (f2, k2, t2), inv2 in free:
         if f2 == fname and alpha(t2, s.func) == mine:
             return inv2
+    # 2b. a local that merely names a subscript / attribute expression (node_adj = graph[node]) is read as that expression
+    try:
+        import copy
+        from rules.shared import resolve_local
+        tree = ast.parse(text, mode="eval")
+        changed = False
+        for n in ast.walk(tree):
+            for fld, val in ast.iter_fields(n):
+                vals = val if isinstance(val, list) else [val]
+                for j, x in enumerate(vals):
+                    if isinstance(x, ast.Name) and isinstance(x.ctx, ast.Load) and x.id in s.func.locals and x.id not in s.func.params:
+                        e = resolve_local(s.func, x)
+                        if e is not x and isinstance(e, (ast.Subscript, ast.Attribute)):
+                            e = copy.deepcopy(e)
+                            changed = True
+                            if isinstance(val, list):
+                                val[j] = e
+                            else:
+                                setattr(n, fld, e)
+        if changed:
+            mine2 = alpha(ast.unparse(tree.body), s.func)
+            for (f2, k2, t2), inv2 in free:
+                if f2 == fname and alpha(t2, s.func) == mine2:
+                    return inv2
+    except SyntaxError:
+        pass
     it = _index_text(text)
     if it is not None and kind == "subscript":
         for (f2, k2, t2), inv2 in free:
@@ -865,8 +891,11 @@ def check_establishing(ctx, rep, E):
             call = st_.node
             gen = call.args[0] if isinstance(call, ast.Call) and call.args else None
             node_txt = None
-            if isinstance(gen, ast.GeneratorExp) and isinstance(gen.generators[0].iter, ast.Subscript):
-                node_txt = u(gen.generators[0].iter.slice)
+            if isinstance(gen, ast.GeneratorExp):
+                from rules.shared import resolve_local
+                it_ = resolve_local(f, gen.generators[0].iter)       # node_adj = graph[node] bound to a local first
+                if isinstance(it_, ast.Subscript):
+                    node_txt = u(it_.slice)
 
             def positive_about(fs, txt):
                 for fc in fs:
